@@ -64,7 +64,7 @@ package layout
 // ---- C09: line detection neither loses, invents nor duplicates fragments (wsum/lsum: see package text) ----
 //@ func (*LineDetector) groupIntoLines results (res)
 //@   property C09
-//@   flags readonly
+//@   flags readonly, noalias
 //@   ensures conserved: lsum(res, len(res)) == wsum(fragments, len(fragments))
 //@   loop 0:
 //@     invariant lsum(lines, len(lines)) + wsum(currentLine, len(currentLine)) == wsum(sorted, $i)
@@ -155,7 +155,7 @@ package layout
 // ---- C09: block detection stages ----
 //@ func (*BlockDetector) groupIntoLines results (res)
 //@   property C09
-//@   flags readonly, nosafety
+//@   flags readonly, nosafety, noalias
 //@   ensures conserved: lsum(res, len(res)) == wsum(fragments, len(fragments))
 //@   loop 0:
 //@     invariant lsum(lines, len(lines)) + wsum(currentLine, len(currentLine)) == wsum(sorted, $i)
@@ -173,7 +173,7 @@ package layout
 // every line goes into exactly one block
 //@ func (*BlockDetector) groupLinesIntoBlocks results (res)
 //@   property C09
-//@   flags nosafety
+//@   flags nosafety, noalias
 //@   ensures conserved: blocksum(res, len(res)) == lsum(lines, len(lines))
 //@   loop 0:
 //@     invariant 1 <= i && i <= len(lines) && len(currentBlock.Fragments) == 0
@@ -200,7 +200,7 @@ package layout
 
 //@ func (*ParagraphDetector) groupIntoParagraphs results (res)
 //@   property C09
-//@   flags nosafety
+//@   flags nosafety, noalias
 //@   ensures conserved: parasum(res, len(res)) == linesum(lines, len(lines))
 //@   loop 0:
 //@     invariant parasum(paragraphs, len(paragraphs)) + linesum(currentLines, len(currentLines)) == linesum(lines, $i)
@@ -227,6 +227,7 @@ package layout
 //@ spec rec prefix func bandsum(bs []yBand, n int) int = n <= 0 ? 0 : bandsum(bs, n - 1) + wsum(bs[n-1].fragments, len(bs[n-1].fragments))
 //@ func groupFragmentsIntoLines results (res)
 //@   property C09
+//@   flags noalias
 //@   ensures conserved: lsum(res, len(res)) == wsum(fragments, len(fragments))
 //@   loop 0:
 //@     invariant bandsum(bands, len(bands)) == wsum(fragments, $i)
